@@ -373,10 +373,46 @@ static void case_join(uint64_t idx)
 	vf_sample("synthetic joins: to.raw=%u post.raw=%u, usr in {raw, raw-1, 0}, cut/trim in {0,1,40000}: %u accepted", a, b, acc);
 }
 
+/* ------------------------------------------- crossing quotient underflow */
+/*
+ * A point one denormal step outside a bound at 0 and a partner of magnitude
+ * > 1: the crossing quotient underflows double to exactly 0.  The part still
+ * starts / ends on an out-of-range point, which its cut / trim must show by
+ * being non-zero.  Only the split is checked here (no joins).
+ */
+static uint64_t under_count(void) { return 96; }
+static void case_underflow(uint64_t idx)
+{
+	static const double partner[] = { 1.5, 5, 1000, 1e6 };
+	static const double tiny[] = { 4.9406564584124654e-324, 1e-323, 1e-310 };
+	int side = (int) (idx % 2), pi = (int) (idx / 2 % 4), ti = (int) (idx / 8 % 3), shape = (int) (idx / 24 % 4);
+	double range[2], v[5], out, in;
+	size_t n;
+	/* side 0: range [0, M], point just below 0; side 1: range [-M, 0], point just above 0 */
+	if (!side) { range[0] = 0; range[1] = 2 * partner[pi]; out = -tiny[ti]; in = partner[pi]; }
+	else { range[0] = -2 * partner[pi]; range[1] = 0; out = tiny[ti]; in = -partner[pi]; }
+	switch (shape) {
+	case 0: v[0] = out; v[1] = in; n = 2; break;                          /* cut */
+	case 1: v[0] = in; v[1] = out; n = 2; break;                          /* trim */
+	case 2: v[0] = in; v[1] = in / 2; v[2] = out; v[3] = out * 2; v[4] = in; n = 5; break;
+	default: v[0] = out; v[1] = in; v[2] = out; n = 3; break;              /* cut and trim */
+	}
+	double *d = vf_xalloc(n * sizeof(*d));
+	memcpy(d, v, n * sizeof(*d));
+	vf_fp_u64(0xd18); vf_fp_u64(idx);
+	vf_nontrivial();
+	if (vf_logging) vf_log("underflow witness: range [%g,%g], out %g, partner %g, shape %d", range[0], range[1], out, in, shape);
+	size_t np = split(d, n, range, 0);
+	c18_check_parts("linear", d, n, range, parts, np, windows, C18_COMPLETE);
+	vf_count("monitor:underflow-witnesses", 1);
+	vf_xfree(d, n * sizeof(*d));
+	vf_sample("crossing quotient underflow: range [%g,%g], point %g next to %g, shape %d", range[0], range[1], out, in, shape);
+}
+
 /* ----------------------------------------------------------------- entry */
 static uint64_t n_prng(void) { return vf_thorough ? 5000000 : 100000; }
 
-uint64_t vf_cases(void) { return ex_count() + n_prng() + run_count() + mix_count() + join_count(); }
+uint64_t vf_cases(void) { return ex_count() + n_prng() + run_count() + mix_count() + join_count() + under_count(); }
 
 void vf_case(uint64_t idx, vf_rng *r)
 {
@@ -387,5 +423,7 @@ void vf_case(uint64_t idx, vf_rng *r)
 	if (idx < run_count()) { case_run(idx, r); return; }
 	idx -= run_count();
 	if (idx < mix_count()) { case_mix(r); return; }
-	case_join(idx - mix_count());
+	idx -= mix_count();
+	if (idx < join_count()) { case_join(idx); return; }
+	case_underflow(idx - join_count());
 }
